@@ -28,7 +28,11 @@ type Explorer struct {
 	Replayed    int
 	MaxEnabled  int
 	MaxPoints   int
-	Interleaved int // executions in which at least two threads were enabled at once
+	Interleaved int  // executions in which at least two threads were enabled at once
+	Exhausted   bool // RunIterative: a bound was reached at which no new execution exists
+	onlyCost    int
+	lastNew     int
+	iter        bool
 }
 
 func (e *Explorer) cost(p *Point, alt int) int {
@@ -55,8 +59,33 @@ type frame struct {
 	spent  int
 }
 
+// RunIterative explores bound 0, 1, ..., maxBound in turn (iterative context bounding): the
+// oracle sees every execution exactly once, in the iteration equal to its cost. Returns the highest
+// bound that was completed before a cap or deadline hit (-1 if none).
+func (e *Explorer) RunIterative(maxBound int) int {
+	completed := -1
+	e.iter = true
+	for b := 0; b <= maxBound; b++ {
+		e.Bound = b
+		e.onlyCost = b
+		e.Capped = false
+		e.Run()
+		if e.Capped {
+			break
+		}
+		completed = b
+		if e.lastNew == 0 && b > 0 {
+			break // no execution needs b deviations: the space is exhausted
+		}
+	}
+	e.onlyCost = -1
+	e.Exhausted = !e.Capped && e.lastNew == 0
+	return completed
+}
+
 // Run explores every execution within the bound (depth-first, replay based).
 func (e *Explorer) Run() {
+	e.lastNew = 0
 	if e.States == nil {
 		e.States = map[uint64]struct{}{}
 		e.Outcomes = map[string]int{}
@@ -72,6 +101,10 @@ func (e *Explorer) Run() {
 		cfg := e.Cfg
 		cfg.Choices = f.prefix
 		r := Run(cfg, e.Harness)
+		fresh := e.onlyCost < 0 || f.spent == e.onlyCost || !e.iter
+		if fresh {
+			e.lastNew++
+		}
 		e.Execs++
 		e.Steps += int64(r.Steps)
 		for _, h := range r.StateSig {
@@ -95,9 +128,11 @@ func (e *Explorer) Run() {
 				panic(fmt.Sprintf("NONDETERMINISM: replay of prefix %v diverged at %d (recorded %v)", f.prefix, i, taken))
 			}
 		}
-		e.Outcomes[r.Outcome]++
-		if e.Check != nil {
-			e.Check(taken, &r)
+		if fresh {
+			e.Outcomes[r.Outcome]++
+			if e.Check != nil {
+				e.Check(taken, &r)
+			}
 		}
 		// determinism: replay a fixed subset completely and compare
 		if e.Execs == 1 || e.Execs%97 == 0 {
